@@ -260,8 +260,14 @@ def build(c):
 
 
 def same(a, b):
-    """bitwise equality that treats NaN == NaN (a loss whose targets are all ignored is NaN on both sides)"""
-    return a.shape == b.shape and torch.equal(a.isnan(), b.isnan()) and torch.equal(a.nan_to_num(0.0), b.nan_to_num(0.0))
+    """equality to float64 rounding (1e-12 of the largest element; observed: bit-equal) that treats NaN == NaN (a loss whose
+    targets are all ignored is NaN on both sides).  Not bitwise on purpose: a refactoring of a module's forward that keeps the
+    function but reorders float operations must not raise an alarm; any change of scale, option or structure is >> 1e-12."""
+    if a.shape != b.shape or not torch.equal(a.isnan(), b.isnan()):
+        return False
+    a0, b0 = a.nan_to_num(0.0), b.nan_to_num(0.0)
+    tol = 1e-12 * max(1e-300, float(b0.abs().max())) if b0.numel() else 0.0
+    return bool(((a0 - b0).abs() <= tol).all())
 
 
 def grads_of(y, tensors, up):
@@ -582,7 +588,7 @@ CHECK = Check(
     rule=("forms: Hypothesis over module class x every constructor option (constraint incl. None, mult, approximate, bias, "
           "stride/padding/dilation/groups, padding_mode in {zeros,reflect,replicate,circular}, eps, elementwise_affine, padding_idx, max_norm, "
           "ignore_index, reduction, dropout_p, is_causal, heads, expansion, layers) x train/eval x input shapes (float64). Oracle (a) the "
-          "documented functional form evaluated on the module's own parameters, outputs and all gradients bitwise, also for a second call of the same instance with another batch shape; (b) torch.nn twin with the "
+          "documented functional form evaluated on the module's own parameters, outputs and all gradients equal to 1e-12 (float64; observed bit-equal), also for a second call of the same instance with another batch shape; (b) torch.nn twin with the "
           "same options and load_state_dict: identical shape, one positive scalar (==1 for losses/norms/embedding), gradients likewise. "
           "unsupported: every unsupported constructor option must raise. init: statistics of freshly constructed weights (7-sigma windows, "
           "n >= 256), zero biases, unit gains, tag table, depth == len(container) inside depth containers and None outside, containers "
